@@ -247,6 +247,12 @@ class {name}(Task):
         _CLASSES[name] = mk(name, ann, '        return copy.deepcopy(v)')
     _CLASSES['Gen'] = mk('Gen', 'Generator', '        yield from copy.deepcopy(v)')
     _CLASSES['GenLazy'] = mk('GenLazy', 'Generator', '        yield from copy.deepcopy(v)', 'data_class = GeneratedDataLazy')
+    # a generator that yields ONE row object again and again, updated in between (a running total, a reused buffer)
+    _CLASSES['GenBuf'] = mk('GenBuf', 'Generator', '''        row = {}
+        for i, x in enumerate(copy.deepcopy(v)):
+            row['i'] = i
+            row['x'] = x
+            yield row''')
     _CLASSES['Np'] = mk('Np', 'np.ndarray', '        return B.build_array(v)')
     _CLASSES['Lon'] = mk('Lon', 'list', '        return [B.build_array(s) for s in v]', 'data_class = ListOfNumpyData')
     _CLASSES['Pd'] = mk('Pd', 'pd.DataFrame', '        return B.build_frame(v)')
@@ -275,6 +281,9 @@ def expected(cname, v):
         return [build_array(s) for s in v]
     if cname in ('Pd', 'Ps'):
         return build_frame(v)
+    if cname == 'GenBuf':
+        # the library collects the generated rows in a list: n references to the one row, which shows its last state
+        return [{'i': len(v) - 1, 'x': copy.deepcopy(v[-1])} for _ in v]
     if cname == 'Dir':
         out = {}
         for rel, content in v['files'].items():
@@ -418,7 +427,7 @@ def run(tier, seed):
 
     tcv.quiet_library()
     doms = {'J': json_values(tier) + [list(range(100000)), {'k%d' % i: [i, str(i)] for i in range(20000)}, 'y' * 300000],
-            'Gen': gen_specs(tier) + large_gen_specs(), 'GenLazy': gen_specs('quick') + large_gen_specs()[:2], 'Np': numpy_specs(tier), 'Lon': lon_specs(tier), 'Pd': [s for s in frame_specs(tier) if s['kind'] != 'series'],
+            'Gen': gen_specs(tier) + large_gen_specs(), 'GenLazy': gen_specs('quick') + large_gen_specs()[:2], 'GenBuf': [g for g in gen_specs('quick') if g][:40], 'Np': numpy_specs(tier), 'Lon': lon_specs(tier), 'Pd': [s for s in frame_specs(tier) if s['kind'] != 'series'],
             'Ps': [s for s in frame_specs(tier) if s['kind'] == 'series'], 'Dir': dir_specs(tier)}
     jobs = []
     sizes = {}
